@@ -1,8 +1,34 @@
 (* C07 -- every explored path computes what a concrete EVM computes on that path.
-   What is proved so far are the building blocks the check relies on; the step-by-step simulation
-   theorem (`path_sim`) is stated in DESIGN.md and not proved yet: the property is decided by the
-   reference-EVM oracle evaluated inside Coq on the implementation's states (tools/p_c07.py). *)
-From SLX Require Import Base gen.Constants gen.ValueSig SymVal Word256 EvmSpec Evm VM Sim.
+   Only statements, `exact lemma`, and Print Assumptions live here; the proofs are in
+   proofs/VmSimBase.v (alists, instruction boundaries, erun at the end of a path, fold vs den),
+   proofs/VmSimRel.v (the simulation relation and `match_state_sound`),
+   proofs/VmSimOps.v (micro-program shapes and the per-opcode TABLE FACT, recomputed from gen/OpcodeSem.v),
+   proofs/VmSimEvm.v (dispatch of the reference EVM), proofs/VmSimStep.v (one instruction),
+   proofs/VmSim.v (one machine iteration, a whole path).
+
+   The symbolic machine:   VM.v run with fold := Fold.constant_fold over code with try_from bytes = Ok code.
+   The concrete machine:   Evm.v (estep / erun) over the raw bytes.
+   Relation `R t e` (VmSimRel.R = Rst on the states + Rpc on the counters):
+     - e_pc e is the next instruction boundary at or after tip t, everything in between is push-data filler
+       (the symbolic thread steps THROUGH the INop entries, the EVM jumps over them: stuttering);
+     - stacks: map den (stack st) = e_stack e (top first), depth <= 1024;
+     - memory: for every offset the denotation of the last generation (0 if absent) = the concrete word;
+     - storage: literal keys only, den (last generation) = concrete value, and the denotations of the WRITTEN
+       generations of every key = the path's e_hist restricted to that key, in order;
+     - all values well formed, no bare unwritten-slot placeholder outside storage.
+   Guards of one step (SimGuards.v: instr_guard + limits_guard = step_guard; booleans over the state BEFORE the step):
+     opcode in the fragment (classify o <> KOther: not ADDMOD/MULMOD/SIGNEXTEND/BYTE = known class K4, not an
+     environment/call/copy/log instruction, not a PUSH truncated by the end of the code), enough operands,
+     depth < 1024 where a word is pushed, the built value is not culled (node_count <= size_limit), MSTORE/MLOAD
+     offset constant-foldable, word aligned and < 2^64, SLOAD/SSTORE key a literal, JUMP target validated, the thread
+     is not retired by the iteration or gas limit at this step.
+   Fragment: PUSH0..PUSH32, DUP1..16, SWAP1..16 (generic in n), POP, ADD MUL SUB DIV SDIV MOD SMOD EXP LT GT SLT SGT EQ
+     ISZERO AND OR XOR NOT SHL SHR SAR, PC, CODESIZE, JUMPDEST, MSTORE, MLOAD, SLOAD, SSTORE, JUMP, JUMPI (both outcomes),
+     and as path ends STOP, INVALID (0xfe), RETURN, REVERT, SELFDESTRUCT and running off the end of the code. *)
+From SLX Require Import Base gen.Constants gen.ValueSig gen.OpcodeTable SymVal Micro gen.OpcodeSem Disasm
+                        Word256 EvmSpec KnownWord Fold Evm VM Sim SimTrace SimGuards VmCases SimCases.
+From SLX Require Import proofs.DisasmProofs proofs.FoldProofs proofs.VmBounds
+                        proofs.VmSimBase proofs.VmSimRel proofs.VmSimOps proofs.VmSimStep proofs.VmSim.
 Open Scope N_scope.
 
 (* constants denote themselves; a load of a never-written slot denotes zero *)
@@ -11,10 +37,155 @@ Proof. reflexivity. Qed.
 Theorem C07_den_unwritten_load : forall k, den (Node T_SLoad [] [k; Node T_UnwrittenStorageValue [] [k]]) = Some 0.
 Proof. reflexivity. Qed.
 
-(* the known deviation K4, as theorems about the faithful model: the value ADDMOD leaves on the symbolic
-   stack denotes something else than the EVM's result when the sum wraps *)
+(* a value that constant-folds to the word o denotes o (memory offsets, jump targets) *)
+Theorem C07_den_fold_known : forall v o, wf v -> constant_fold v = Known o -> den v = Some o.
+Proof. exact den_fold_known. Qed.
+
+(* ---- the per-opcode table fact, re-established on the regenerated opcode bodies by computation:
+   for every opcode the hand-written `classify` puts in the fragment, the generated micro-program has the shape
+   of its class with THIS constructor and operand order, the generated opcode byte is the EVM's, the constructor
+   denotes the Yellow-Paper function on the operands in stack order, and the reference EVM dispatches that byte to
+   that function ---- *)
+Theorem C07_table_fact : forall o, kind_ok o.
+Proof. exact table_fact. Qed.
+
+(* the simulation relation is sound for the executable comparison used by the check *)
+Theorem C07_match_state_sound : forall st e, Rst st e -> match_state st e = 0.
+Proof. exact match_state_sound. Qed.
+
+(* ---- step_sim, instruction level: every instruction of the fragment, executed from related states at an
+   instruction boundary under the guard, ends in related states (`outcome_ok`: one EVM step; two for JUMP, whose
+   JUMPDEST the symbolic machine steps over; a fork at JUMPI is related to the jump-taken step; STOP, INVALID,
+   RETURN, REVERT, SELFDESTRUCT kill the thread and halt the EVM normally in a related state) ---- *)
+Theorem C07_step_sim_instr : forall bytes code,
+  bytes_ok bytes -> N.of_nat (length bytes) <= two32 -> try_from bytes = Ok code ->
+  forall (cfg : config) c e i vis jt,
+  Rst (o_st c) e -> bdry bytes code (e_pc e) -> nth_error code (N.to_nat (e_pc e)) = Some i ->
+  instr_guard cfg code (o_st c) (e_pc e) i = true ->
+  outcome_ok bytes code c (e_pc e) e jt (exec_instr constant_fold cfg code vis jt (e_pc e) i c) (is_jumpi i)
+             (next_ip (o_st c) (e_pc e) i).
+Proof. exact exec_sim. Qed.
+
+(* ---- step_sim, machine level: one iteration of VM::execute on a thread related to the concrete machine
+   (`live`: the concrete machine has followed the thread's ghost path to a state R-related to it), under the
+   step guard: the thread continues related (with the ghost decision appended at a JUMPI), or it is retired and
+   the concrete machine halts normally in a related state; every forked thread is related to the jump-taken
+   successor ---- *)
+Theorem C07_step_sim : forall bytes code,
+  bytes_ok bytes -> N.of_nat (length bytes) <= two32 -> try_from bytes = Ok code ->
+  forall (cfg : config) m m' t rest,
+  v_code m = code -> v_cfg m = cfg -> v_killed m = false -> v_queue m = t :: rest ->
+  vm_step constant_fold m = SRunning m' -> live bytes code t -> step_guard code cfg t = true ->
+  exists forked,
+    Forall (fun f => live bytes code f /\ tpath f = tpath t ++ [true]) forked /\
+    ((exists t', v_queue m' = t' :: rest ++ forked /\ v_stored m' = v_stored m /\ v_paths m' = v_paths m
+                 /\ live bytes code t' /\ (tpath t' = tpath t \/ tpath t' = tpath t ++ [false]))
+     \/ (exists st vis p, v_queue m' = rest ++ forked /\ v_stored m' = v_stored m ++ [(st, vis)]
+                 /\ v_paths m' = v_paths m ++ [p] /\ matched bytes code st vis p
+                 /\ (p = tpath t \/ p = tpath t ++ [false]))).
+Proof. exact step_sim. Qed.
+
+(* forking deep-copies the whole thread state at the branch point (any program, any step) *)
+Theorem C07_fork_copies_state : forall m m' t rest,
+  vm_step constant_fold m = SRunning m' -> v_queue m = t :: rest ->
+  exists st' forked,
+    (forall f, In f forked -> tstate f = with_fork_point st' (tip t) /\ tpath f = tpath t ++ [true]) /\
+    ((exists t', v_queue m' = t' :: rest ++ forked /\ tstate t' = st')
+     \/ (exists vis, v_queue m' = rest ++ forked /\ v_stored m' = v_stored m ++ [(st', vis)])).
+Proof. exact fork_copies_state. Qed.
+
+(* ---- path_sim: no bound on the length of the run or the number of branches.  A state the machine has retired
+   with ghost path p, such that every iteration that worked on a thread of p's lineage (ghost path a prefix of p)
+   satisfied the step guard, is R-related to the state in which the reference EVM halts normally along p; hence
+   the executable comparisons `match_state` and `state_vs_path` of the check return 0.  Writes made after a branch
+   therefore never show up in the sibling path and writes before it show up in both: each retired state's written
+   generations are exactly ITS path's e_hist. ---- *)
+Theorem C07_path_sim : forall bytes code (cfg : config),
+  bytes_ok bytes -> N.of_nat (length bytes) <= two32 -> try_from bytes = Ok code ->
+  forall n p, guards_along code cfg n (init_vm code cfg) p = true ->
+  forall i sv, nth_error (v_stored (result_state (run constant_fold n (init_vm code cfg)))) i = Some sv ->
+               nth_error (v_paths (result_state (run constant_fold n (init_vm code cfg)))) i = Some p ->
+  (exists fuel e, erun bytes fuel p e_init = (EHalt e, []) /\ Rst (fst sv) e /\ match_state (fst sv) e = 0)
+  /\ state_vs_path bytes (fst sv) p = 0.
+Proof. exact path_sim_check. Qed.
+
+(* the same for the binary-fuel evaluator the check runs (VmCases.model_run = run_p constant_fold (2^40)) *)
+Theorem C07_path_sim_model_run : forall bytes code (cfg : config),
+  bytes_ok bytes -> N.of_nat (length bytes) <= two32 -> try_from bytes = Ok code ->
+  forall q p, guards_along code cfg (Pos.to_nat q) (init_vm code cfg) p = true ->
+  forall i sv, nth_error (v_stored (result_vm (run_p constant_fold q (init_vm code cfg)))) i = Some sv ->
+               nth_error (v_paths (result_vm (run_p constant_fold q (init_vm code cfg)))) i = Some p ->
+  state_vs_path bytes (fst sv) p = 0.
+Proof. exact path_sim_run_p. Qed.
+
+(* ---- the known deviation K4 (outside the guards above), as theorems about the faithful model ---- *)
 Theorem C07_addmod_refuted : exists a b n,
   den (Node T_Modulo [] [Node T_Add [] [Known a; Known b]; Known n]) <> Some (spec_addmod a b n).
 Proof. exists (2 ^ 256 - 1), 1, 3. vm_compute. discriminate. Qed.
 
+Theorem C07_mulmod_refuted : exists a b n,
+  den (Node T_Modulo [] [Node T_Multiply [] [Known a; Known b]; Known n]) <> Some (spec_mulmod a b n).
+Proof. exists (2 ^ 255), 2, 3. vm_compute. discriminate. Qed.
+
+(* concrete runs of the model: the first retired state against the reference EVM along its path *)
+Definition c07_cfg : config := mk_config 30000000 10 50 100000 394 false 100 None.
+Definition first_mismatch (bytes : list byte) : N :=
+  match try_from bytes with
+  | Ok code => let m := result_state (run constant_fold 200 (init_vm code c07_cfg)) in
+               match v_stored m, v_paths m with
+               | st :: _, p :: _ => state_vs_path bytes (fst st) p
+               | _, _ => 0 end
+  | _ => 0 end.
+
+(* PUSH1 3; PUSH1 1; PUSH32 2^256-1; ADDMOD; STOP   and   PUSH1 3; PUSH1 2; PUSH32 2^255; MULMOD; STOP *)
+Theorem C07_addmod_run_refuted : first_mismatch ([96;3;96;1;127] ++ repeat 255 32 ++ [8;0]) = 41.
+Proof. vm_compute. reflexivity. Qed.
+Theorem C07_mulmod_run_refuted : first_mismatch ([96;3;96;2;127;128] ++ repeat 0 31 ++ [9;0]) = 41.
+Proof. vm_compute. reflexivity. Qed.
+(* PUSH1 0xff; PUSH1 0; SIGNEXTEND; STOP: the EVM computes signextend(0, 0xff) = 2^256-1; the model stores the operands
+   swapped (SignExtend { size: 0xff, value: 0 }), which denotes signextend(0xff, 0) = 0 *)
+Theorem C07_signextend_run_refuted : first_mismatch [96;255;96;0;11;0] = 41.
+Proof. vm_compute. reflexivity. Qed.
+Theorem C07_signextend_refuted : exists b x,
+  den (Node T_SignExtend [] [Known x; Known b]) <> Some (spec_signextend b x).
+Proof. exists 0, 255. vm_compute. discriminate. Qed.
+(* PUSH32 2^255; PUSH32 2^253; BYTE; STOP: index >= 32 gives 0 in the EVM; the desugared 8*i wraps to 0 *)
+Theorem C07_byte_run_refuted : first_mismatch ([127;128] ++ repeat 0 31 ++ [127;32] ++ repeat 0 31 ++ [26;0]) = 41.
+Proof. vm_compute. reflexivity. Qed.
+(* sstore(3,7); sload(1+2): storage keys are compared syntactically, the load sees an unwritten slot *)
+Theorem C07_syntactic_key_refuted : first_mismatch [96;7;96;3;85;96;2;96;1;1;84;0] = 41.
+Proof. vm_compute. reflexivity. Qed.
+
+(* Non-vacuity: a program with a branch whose two paths satisfy all guards:
+     sstore(3,7); if (1) goto L; sstore(3,9); stop;  L: mstore(0, sload(3)); x = mload(0); pop(x + x); stop
+   60 07 60 03 55  60 01 60 10 57  60 09 60 03 55 00  5b 60 03 54 60 00 52 60 00 51 80 01 50 00
+   Both retired states match the reference EVM, and the write made after the branch (9) is in the history of the
+   fall-through path only, the write made before it (7) in both. *)
+Definition c07_prog : list byte :=
+  [96;7;96;3;85; 96;1;96;16;87; 96;9;96;3;85;0; 91;96;3;84;96;0;82;96;0;81;128;1;80;0].
+Example C07_hyps_met :
+  exists code, try_from c07_prog = Ok code /\
+    let m := result_state (run constant_fold 100 (init_vm code c07_cfg)) in
+    v_paths m = [[false]; [true]] /\
+    guards_along code c07_cfg 100 (init_vm code c07_cfg) [false] = true /\
+    guards_along code c07_cfg 100 (init_vm code c07_cfg) [true] = true /\
+    map (fun s => sto_known (fst s)) (v_stored m) =
+      [[(Known 3, [Known 7; Known 9])]; [(Known 3, [Known 7])]].
+Proof. eexists. split; [vm_compute; reflexivity|]. vm_compute. repeat split; reflexivity. Qed.
+
+Print Assumptions C07_den_fold_known.
+Print Assumptions C07_table_fact.
+Print Assumptions C07_match_state_sound.
+Print Assumptions C07_step_sim_instr.
+Print Assumptions C07_step_sim.
+Print Assumptions C07_fork_copies_state.
+Print Assumptions C07_path_sim.
+Print Assumptions C07_path_sim_model_run.
 Print Assumptions C07_addmod_refuted.
+Print Assumptions C07_mulmod_refuted.
+Print Assumptions C07_addmod_run_refuted.
+Print Assumptions C07_mulmod_run_refuted.
+Print Assumptions C07_signextend_run_refuted.
+Print Assumptions C07_signextend_refuted.
+Print Assumptions C07_byte_run_refuted.
+Print Assumptions C07_syntactic_key_refuted.
